@@ -1,0 +1,35 @@
+// SPDX-FileCopyrightText: 2026 verification hooks
+//
+// SPDX-License-Identifier: GPL-3.0-or-later
+
+//go:build verif
+// +build verif
+
+package cla
+
+// SimHook is set by the deterministic-simulation harness (build tag "verif" only).
+var SimHook func(point, key string)
+
+func simHook(point, key string) {
+	if f := SimHook; f != nil {
+		f(point, key)
+	}
+}
+
+// SimOrderSenders / SimOrderReceivers let the harness own the sync.Map iteration order.
+var SimOrderSenders func([]ConvergenceSender) []ConvergenceSender
+var SimOrderReceivers func([]ConvergenceReceiver) []ConvergenceReceiver
+
+func simOrderSenders(css []ConvergenceSender) []ConvergenceSender {
+	if f := SimOrderSenders; f != nil {
+		return f(css)
+	}
+	return css
+}
+
+func simOrderReceivers(crs []ConvergenceReceiver) []ConvergenceReceiver {
+	if f := SimOrderReceivers; f != nil {
+		return f(crs)
+	}
+	return crs
+}
